@@ -4,7 +4,7 @@ CONSTANTS
   Taints = {}
   GenMode = FALSE
   MaxOps = 4
-  MaxPost = 2
+  MaxPost = 1
   MaxRecs = 6
   MaxBatch = 2
   MaxEpoch = 2
